@@ -173,6 +173,24 @@ impl M {
         let pre_established: Vec<bool> = s.w.connections.iter().map(|c| c.reconnection.connection_established_ms != 0).collect();
         let pre_may_retry: Vec<bool> = s.w.connections.iter().map(|c| c.reconnection.should_attempt_reconnect(now)).collect();
         let out = s.w.arm_housekeeping(env);
+        if std::env::var("VERIF_TRACE").is_ok() {
+            for (l, c) in s.w.connections.iter().enumerate() {
+                eprintln!(
+                    "TRACE +{} link {l}: mode {:?} connected {} phase {:?} rx-age {:?} attempt {} failures {} established {} sock {} wire {:?} hk_err {:?}",
+                    now - T0,
+                    s.mode[l],
+                    c.connected,
+                    c.phase,
+                    c.last_received.map(|t| now - t),
+                    c.reconnection.last_reconnect_attempt_ms.saturating_sub(T0),
+                    c.reconnection.reconnect_failure_count,
+                    c.reconnection.connection_established_ms.saturating_sub(T0),
+                    s.w.conn_io.contains_key(&c.conn_id),
+                    out.wire.iter().filter(|x| x.0 == l).map(|x| format!("{:02x}{:02x}/{}", x.1[0], x.1.get(1).copied().unwrap_or(0), x.1.len())).collect::<Vec<_>>(),
+                    out.hk_error,
+                );
+            }
+        }
         let mut reg_err_sent = vec![false; n];
         for l in 0..n {
             let c = &s.w.connections[l];
@@ -229,6 +247,10 @@ impl M {
                     }
                 }
                 s.mon[l].last_attempt = now;
+                // a reconnect attempt re-creates the link's socket: the receiver does not know the new address until
+                // a REG2 from it arrives (set again where the receiver answers REG3), so it has nowhere to send
+                // return traffic for this link
+                s.rec_known[l] = false;
             }
             let down = !c.connected && oracle_timed_out(c, now, timeout);
             if down && s.mon[l].last_attempt != 0 && now - s.mon[l].last_attempt > 120_000 + 1000 {
